@@ -14,7 +14,10 @@
 (*  reset(sid,cap,maxFiles,maxSize)  a new scenario                        *)
 (*  Send(e,trunc,pushed,pending) the channel's send critical section for   *)
 (*                               event e (trunc: the queue was cleared)    *)
-(*  Emit(e)                      FileSet::emit(e) returned                 *)
+(*  Emit(e)                      FileSet::emit(e) returned (writer succeeded)*)
+(*  FormatFail(e,kind)           FileSet::emit(e) returned; the writer of  *)
+(*                               e failed before ("empty") or after part   *)
+(*                               of its output ("partial")                 *)
 (*  QLen(n)                      the queue_length metric sampled after it  *)
 (*  FlushReq(w) FlushRet(w,ret)  blocking_flush about to be called / done  *)
 (*  Take(n)                      the worker thread took the queue (n items)*)
@@ -26,7 +29,8 @@
 (*  EmitBlocked(e)               emit(e) did not return within 5 s         *)
 (*  ChanOther(kind)              the emitter used another channel entry    *)
 (*                               point than the plain send                 *)
-(*  Fin(truncated)               end: the queue_full_truncated metric      *)
+(*  Fin(truncated,formatFailed)  end: the queue_full_truncated and         *)
+(*                               event_format_failed metrics               *)
 (*                                                                         *)
 (* The monitor is deterministic.  The file-level effects and clauses are   *)
 (* FileSetBase's; the queue is modelled exactly (queue, batch).  Clauses   *)
@@ -43,6 +47,11 @@
 (*     is stalled, and only uses the plain send.                           *)
 (*  (C10) NoGarbage / RecordsWellFormed / Durable ... of FileSetBase: what *)
 (*     reaches the files are whole events, separator included.             *)
+(*  FormatFailDiscarded (C10) an event whose writer failed is discarded as *)
+(*     a whole: it is never handed to the channel (and, by NoGarbage, no   *)
+(*     byte of it reaches a file - in particular not as the head of the    *)
+(*     next event formatted on that thread).                               *)
+(*  FormatFailCounted the event_format_failed metric counts exactly these. *)
 (***************************************************************************)
 EXTENDS FileSetBase, Json, IOUtils
 
@@ -58,15 +67,17 @@ VARIABLES
     ev        \* [emitted, reqs, failed, dropped, stalled, stallEmits]
 evars == <<o, l, sbad, ebad, sid, q, ev>>
 
-Q0(cap) == [cap |-> cap, queue |-> <<>>, batch |-> <<>>, ntrunc |-> 0]
-Ev0 == [emitted |-> {}, reqs |-> <<>>, failed |-> {}, dropped |-> {}, stalled |-> FALSE, stallEmits |-> 0]
+Q0(cap) == [cap |-> cap, queue |-> <<>>, batch |-> <<>>, ntrunc |-> 0, sent |-> {}]
+Ev0 == [emitted |-> {}, reqs |-> <<>>, failed |-> {}, dropped |-> {}, stalled |-> FALSE, stallEmits |-> 0,
+        fmtFailed |-> {}]
 
 EInit == o = ObsInit(1, 1) /\ l = 1 /\ sbad = {} /\ ebad = {} /\ sid = -1 /\ q = Q0(1) /\ ev = Ev0
 
 EVerdict ==
     PrintT(<<"VERDICT", ToJson([sid |-> sid, bad |-> o.bad \cup sbad \cup StateBadOf(o) \cup ebad,
                                 stallEmits |-> ev.stallEmits, ntrunc |-> q.ntrunc,
-                                nfailed |-> Cardinality(ev.failed), nacked |-> Cardinality(o.acked)])>>)
+                                nfailed |-> Cardinality(ev.failed), nacked |-> Cardinality(o.acked),
+                                nfmt |-> Cardinality(ev.fmtFailed)])>>)
 
 Suffix(s, n) == IF n >= Len(s) THEN s ELSE SubSeq(s, Len(s) - n + 1, Len(s))
 
@@ -77,17 +88,22 @@ Step(r) ==
             LET full == Len(q.queue) >= q.cap
                 q1 == IF r.trunc = 1 THEN <<>> ELSE q.queue
                 q2 == IF r.pushed = 1 THEN Append(q1, r.e) ELSE q1
-            IN /\ q' = [q EXCEPT !.queue = q2, !.ntrunc = @ + r.trunc]
+            IN /\ q' = [q EXCEPT !.queue = q2, !.ntrunc = @ + r.trunc, !.sent = @ \cup {r.e}]
                /\ ev' = [ev EXCEPT !.dropped = IF r.trunc = 1 THEN @ \cup SeqRange(q.queue) ELSE @]
                /\ ebad' = ebad \cup Flag((r.trunc = 1) <=> full, "DropsOldestCounted")
                                \cup Flag(r.pushed = 1, "DropsOldestCounted")
                                \cup Flag(Len(q2) <= q.cap /\ r.pending <= q.cap, "QueueBounded")
                                \cup Flag(Len(q2) = r.pending, "QueueModel")
+                               \cup Flag(r.e \notin ev.fmtFailed, "FormatFailDiscarded")
                /\ UNCHANGED o
       [] r.ev = "Emit" ->
             /\ ev' = [ev EXCEPT !.emitted = @ \cup {r.e},
                                 !.stallEmits = IF ev.stalled THEN @ + 1 ELSE @]
             /\ UNCHANGED <<o, q, ebad>>
+      [] r.ev = "FormatFail" ->
+            /\ ev' = [ev EXCEPT !.fmtFailed = @ \cup {r.e}]
+            /\ ebad' = ebad \cup Flag(r.e \notin q.sent, "FormatFailDiscarded")
+            /\ UNCHANGED <<o, q>>
       [] r.ev = "QLen" ->
             /\ ebad' = ebad \cup Flag(r.n <= q.cap, "QueueBounded")
             /\ UNCHANGED <<o, q, ev>>
@@ -129,6 +145,7 @@ Step(r) ==
       [] r.ev = "ChanOther" -> ebad' = ebad \cup {"EmitNeverBlocks"} /\ UNCHANGED <<o, q, ev>>
       [] r.ev = "Fin" ->
             /\ ebad' = ebad \cup Flag(r.truncated = q.ntrunc, "DropsOldestCounted")
+                            \cup Flag(r.formatFailed = Cardinality(ev.fmtFailed), "FormatFailCounted")
             /\ UNCHANGED <<o, q, ev>>
 
 ENext ==
